@@ -16,7 +16,7 @@
 From Coq Require Import NArith List Bool Lia.
 From KdV Require Import Fmt.Codec Fmt.CodecProofs Fmt.Rle Fmt.RleProofs
      Fmt.PfnModel Fmt.BitmapSpec Fmt.ImageSpec Fmt.DiskdumpModel Fmt.DiskdumpSpec Fmt.DiskdumpProofs
-     Fmt.S390Model Fmt.S390Spec Fmt.S390Proofs Fmt.LkcdModel Fmt.LkcdSpec Fmt.LkcdProofs Fmt.ReadProofs
+     Fmt.S390Model Fmt.S390Spec Fmt.S390Proofs Fmt.LkcdModel Fmt.LkcdSpec Fmt.LkcdProofs Fmt.LkcdIndexModel Fmt.LkcdIndexProofs Fmt.ElfGeomModel Fmt.ElfGeomSpec Fmt.ElfGeomProofs Fmt.ElfGeomRoundtrip Fmt.ReadProofs
      Fmt.ElfModel Fmt.ElfSpec Fmt.ElfProofs Fmt.ElfRoundtrip Fmt.ElfOpenProofs
      Fmt.SadumpModel Fmt.SadumpSpec Fmt.SadumpProofs Fmt.SadumpOpenProofs.
 Import ListNotations.
@@ -65,34 +65,87 @@ Print Assumptions C01_rle_never_overruns.
 
 (** * diskdump / makedumpfile KDUMP *)
 
-(** [_partial]: single-file dumps.  The layout record [dd_wf] fixes
-    [dl_split = false]; split sets are exercised by the tie of C11 and are not
-    covered by this theorem.  Everything else the property quantifies over is
-    covered: header versions 0-6, 32/64-bit headers, both sub-header layouts of
-    32-bit dumps, both byte orders, page sizes 2^12..2^18, one or two bitmaps,
-    any exclusion pattern, any per-page method among raw/zlib/snappy/zstd with
-    arbitrary unknown flag bits, any utsname / VMCOREINFO / notes / eraseinfo
-    bytes. *)
-Theorem C01_diskdump_geometry_partial : forall decompress l pages img,
+(** Everything the property quantifies over for this format: header versions
+    0-6, 32/64-bit headers, both sub-header layouts of 32-bit dumps, both byte
+    orders, page sizes 2^12..2^18, one or two bitmaps, any exclusion pattern,
+    any per-page method among raw/zlib/snappy/zstd with arbitrary unknown flag
+    bits, any utsname / VMCOREINFO / notes / eraseinfo bytes; a whole dump in
+    one file, one member of a split set on its own, and split sets with the
+    files in any order.  (Flattened files are C11's; LZO is not in the build.) *)
+Theorem C01_diskdump_geometry : forall decompress l pages img,
   dd_wf l img -> Forall2 (stores decompress) pages img -> len (encode_dd l pages) < 2^64 ->
   exists st, dd_open (read_files [encode_dd l pages]) 1 = Ok st /\
     dd_be st = dl_be l /\ dd_ptr_size st = (if dl_64 l then 8 else 4) /\
     dd_page_size st = dl_page_size l /\ dd_max_pfn st = dl_max_mapnr l.
 Proof. exact diskdump_geometry. Qed.
-Print Assumptions C01_diskdump_geometry_partial.
+Print Assumptions C01_diskdump_geometry.
 
-Theorem C01_diskdump_roundtrip_partial : forall decompress l pages img,
-  dd_wf l img -> Forall2 (stores decompress) pages img -> len (encode_dd l pages) < 2^64 ->
+Theorem C01_diskdump_roundtrip : forall decompress l pages img,
+  dd_wf l img -> dl_split l = false ->
+  Forall2 (stores decompress) pages img -> len (encode_dd l pages) < 2^64 ->
   exists st, dd_open (read_files [encode_dd l pages]) 1 = Ok st /\
     forall zero_excluded pfn,
       dd_read_page (read_files [encode_dd l pages]) decompress st zero_excluded pfn =
       spec_read_page img (dl_page_size l) (dl_max_mapnr l) zero_excluded pfn.
 Proof. exact diskdump_roundtrip. Qed.
-Print Assumptions C01_diskdump_roundtrip_partial.
+Print Assumptions C01_diskdump_roundtrip.
+
+(** one file of a split set opened on its own: its window's pages, and
+    "not in the dump" for every other page frame *)
+Theorem C01_diskdump_member_roundtrip : forall decompress l pages img,
+  dd_wf l img -> Forall2 (stores decompress) pages img -> len (encode_dd l pages) < 2^64 ->
+  exists st, dd_open (read_files [encode_dd l pages]) 1 = Ok st /\
+    forall zero_excluded pfn,
+      dd_read_page (read_files [encode_dd l pages]) decompress st zero_excluded pfn =
+      spec_read_page (if (win_start l <=? pfn) && (pfn <? win_end l) then img else [])
+                     (dl_page_size l) (dl_max_mapnr l) zero_excluded pfn.
+Proof. exact diskdump_member_roundtrip. Qed.
+Print Assumptions C01_diskdump_member_roundtrip.
+
+(** Split sets.  [ws] lists the PFN windows of the files in the order the
+    files are passed to the library: any list of non-empty, pairwise disjoint
+    windows that together hold every page frame below max_mapnr
+    ([windows_ok]), in any order (the list is arbitrary; see also
+    [C01_diskdump_split_any_order]).  Every file is the same dump with its own
+    window ([with_window]): complete bitmaps, the descriptors and data of its
+    window only.  Opening the set gives the dump's geometry and every page
+    frame reads exactly as from the single-file dump: the image's page, or
+    NODATA / zeroes.  The PFN -> file step is C11's theorem
+    [SplitProofs.owner_spec], composed here with the per-file lookup. *)
+Theorem C01_diskdump_split_roundtrip : forall decompress l ws pages img,
+  ws <> [] ->
+  (forall w, In w ws -> dd_wf (with_window l w) img) ->
+  Forall2 (stores decompress) pages img ->
+  (forall w, In w ws -> len (encode_dd (with_window l w) pages) < 2^64) ->
+  windows_ok ws (dl_max_mapnr l) ->
+  exists st, dd_open (read_files (encode_dd_set l ws pages)) (length ws) = Ok st /\
+    dd_be st = dl_be l /\ dd_ptr_size st = (if dl_64 l then 8 else 4) /\
+    dd_page_size st = dl_page_size l /\ dd_max_pfn st = dl_max_mapnr l /\
+    forall zero_excluded pfn,
+      dd_read_page (read_files (encode_dd_set l ws pages)) decompress st zero_excluded pfn =
+      spec_read_page img (dl_page_size l) (dl_max_mapnr l) zero_excluded pfn.
+Proof. exact diskdump_split_roundtrip. Qed.
+Print Assumptions C01_diskdump_split_roundtrip.
+
+(** the hypotheses on the windows do not depend on the order of the files *)
+Theorem C01_diskdump_split_any_order : forall ws ws' m,
+  Permutation.Permutation ws ws' -> windows_ok ws m -> windows_ok ws' m.
+Proof. exact windows_ok_perm. Qed.
+Print Assumptions C01_diskdump_split_any_order.
+
+(** when is a member layout well-formed: the base layout is, the header
+    version knows split dumps, and the window fits the header's fields *)
+Theorem C01_diskdump_member_wf : forall l img w,
+  dd_wf l img -> 2 <= dl_version l -> fst w < 2^64 -> snd w < 2^64 ->
+  (dl_64 l = false -> dl_version l < 6 -> fst w < 2^32 /\ snd w < 2^32) ->
+  dd_wf (with_window l w) img.
+Proof. exact with_window_wf. Qed.
+Print Assumptions C01_diskdump_member_wf.
 
 (** unaligned, page-crossing ranges through [read_locked]'s page loop *)
-Theorem C01_diskdump_read_range_partial : forall decompress l pages img,
-  dd_wf l img -> Forall2 (stores decompress) pages img -> len (encode_dd l pages) < 2^64 ->
+Theorem C01_diskdump_read_range : forall decompress l pages img,
+  dd_wf l img -> dl_split l = false ->
+  Forall2 (stores decompress) pages img -> len (encode_dd l pages) < 2^64 ->
   exists st, dd_open (read_files [encode_dd l pages]) 1 = Ok st /\
     forall zero_excluded addr n, addr + n <= 2^64 ->
       let '(status, data) := dd_read (read_files [encode_dd l pages]) decompress st zero_excluded addr n in
@@ -104,7 +157,7 @@ Theorem C01_diskdump_read_range_partial : forall decompress l pages img,
           spec_read_page img (dl_page_size l) (dl_max_mapnr l) zero_excluded
                          ((addr + N.of_nat m) / dl_page_size l) = Err status)).
 Proof. exact diskdump_read_range. Qed.
-Print Assumptions C01_diskdump_read_range_partial.
+Print Assumptions C01_diskdump_read_range.
 
 (** the right-hand side above, spelled out *)
 Theorem C01_spec_read_page_meaning : forall img pgsz max_pfn z pfn,
@@ -159,8 +212,7 @@ Print Assumptions C01_s390_roundtrip.
     exactly the specified page: the file-backed bytes where a segment has
     them, zeroes elsewhere, and NODATA when no file-backed (resp. memory)
     byte lies in the page.
-    Not in this theorem: page size and pointer size (they come from
-    VMCOREINFO / the architecture tables, outside the reader), max_pfn. *)
+    Page size and pointer size: [C01_elf_geometry]; max_pfn: [C01_elf_max_pfn]. *)
 Theorem C01_elf_roundtrip : forall l segs pgsz,
   elf_wf l segs -> 0 < pgsz ->
   exists st0,
@@ -185,6 +237,29 @@ Theorem C01_elf_max_pfn : forall l segs shift,
 Proof. exact elf_max_pfn_full. Qed.
 Print Assumptions C01_elf_max_pfn.
 
+(** Geometry.  [note_segs_hold]: the PT_NOTE segments of the dump hold ELF
+    notes (gABI layout: sizes, type, name and descriptor padded to 4 bytes), in
+    any number and order; VMCOREINFO notes (name stored with or without its
+    NUL) hold KEY=VALUE lines, other notes are arbitrary ([snote_ok]: a
+    PAGESIZE line carries a power of two in decimal, keys have no '=').  The
+    way [open_common] derives the two sizes - note walk, VMCOREINFO line
+    split, [strtoul] and the power-of-two test of [set_page_size]
+    (Attr/AttrBase.v, Attr/Hooks.v), [mach2arch], [arch_ptr_size],
+    [default_page_shift] - run on the encoded file gives: the byte order of
+    EI_DATA, the pointer size of the machine's ABI, and the page size that the
+    last PAGESIZE line announces, or else the architecture's fixed page size
+    (none for AArch64 / IA-64 / PowerPC: [None], such dumps must announce
+    theirs). *)
+Theorem C01_elf_geometry : forall l segs nss,
+  elf_wf l segs -> note_segs_hold l segs nss ->
+  exists st, elf_open (read_files [encode_elf l segs]) 1 = Ok st /\
+    es_be st = el_be l /\
+    elf_geometry (read_files [encode_elf l segs]) st =
+    Ok {| eg_ptr_size := spec_ptr_size (el_machine l) (el_64 l);
+          eg_page_size := spec_page_size (el_machine l) (concat nss) |}.
+Proof. exact elf_open_geometry. Qed.
+Print Assumptions C01_elf_geometry.
+
 (** the last-hit shortcut of [find_closest_*] never changes an answer *)
 Theorem C01_elf_shortcut_irrelevant : forall virt file st addr dist,
   arr_ok virt (arrays virt st) -> addr + dist <= 2^64 -> 0 < dist ->
@@ -201,7 +276,7 @@ Print Assumptions C01_elf_shortcut_irrelevant.
     by [single_extent_ok] and for a disk set whose members hold whole pages by
     [ext_loop_chunks]), [sadump_read_page] (with the in-region offset of fix
     04) returns the image's page.  That [sd_open] builds such a state from the
-    three container kinds is covered by the tie only. *)
+    three container kinds: the three theorems below. *)
 Theorem C01_sadump_page_path_partial : forall rd img nbytes exts max_pfn bs ptr nf,
   Forall (fun oc => match oc with Some c => len c = 4096 | None => True end) img ->
   (length img <= 8 * nbytes)%nat ->
@@ -214,13 +289,11 @@ Theorem C01_sadump_page_path_partial : forall rd img nbytes exts max_pfn bs ptr 
 Proof. exact sadump_page_path. Qed.
 Print Assumptions C01_sadump_page_path_partial.
 
-(** single-partition dumps, end to end: block sizes 2^8..2^20 (found by
+(** End to end, for the three container kinds: block sizes 2^8..2^20 (found by
     [verify_magic_number] from the magic-number sequence), header versions 0
     and 1, any number of CPUs in long or legacy mode (x86_64 / ia32 pointer
-    size), any bitmap sizes and exclusion pattern: geometry and every page.
-    [_partial]: disk sets and media backups are covered by the page-path
-    theorem above and the tie, not by an open-path theorem. *)
-Theorem C01_sadump_single_roundtrip_partial : forall l img,
+    size), any bitmap sizes and exclusion pattern: geometry and every page. *)
+Theorem C01_sadump_single_roundtrip : forall l img,
   sd_wf l img ->
   exists st, sd_open (read_files (encode_sadump l img)) 1 = Ok st /\
     sd_ptr_size st = (if existsb (fun b => b) (sl_lma l) then 8 else 4) /\
@@ -229,7 +302,40 @@ Theorem C01_sadump_single_roundtrip_partial : forall l img,
       sd_read_page (read_files (encode_sadump l img)) st z pfn =
       spec_read_page img SADUMP_PAGE_SIZE (sl_max_mapnr l) z pfn.
 Proof. exact sadump_single_roundtrip. Qed.
-Print Assumptions C01_sadump_single_roundtrip_partial.
+Print Assumptions C01_sadump_single_roundtrip.
+
+(** a media backup: the media header in front, checked against the partition
+    header's ids ([check_media_part]); everything else one block later *)
+Theorem C01_sadump_media_roundtrip : forall l img,
+  sd_wf_media l img ->
+  exists st, sd_open (read_files (encode_sadump l img)) 1 = Ok st /\
+    sd_ptr_size st = (if existsb (fun b => b) (sl_lma l) then 8 else 4) /\
+    sd_max_pfn st = sl_max_mapnr l /\ sd_block_size st = sl_block_size l /\
+    forall z pfn,
+      sd_read_page (read_files (encode_sadump l img)) st z pfn =
+      spec_read_page img SADUMP_PAGE_SIZE (sl_max_mapnr l) z pfn.
+Proof. exact sadump_media_roundtrip. Qed.
+Print Assumptions C01_sadump_media_roundtrip.
+
+(** A disk set of any number of disks: disk 1 carries the disk set header
+    (volume ids of all members, checked by [init_disk_set] / [process_vol_id])
+    and the dump headers, every later disk a partition header and page data;
+    each file's extent goes to the slot of its disk number, and the page data
+    of the set is the concatenation of the extents in disk order.
+    [_partial]: the files are given in disk order.  That the extent table does
+    not depend on the order in which the files are passed is C11's theorem
+    (Flat/DiskSetProofs.v, [locate_any_order]); shuffled sets are exercised
+    by the tie. *)
+Theorem C01_sadump_set_roundtrip_partial : forall l img,
+  sd_wf_set l img ->
+  exists st, sd_open (read_files (encode_sadump l img)) (length (sl_vol_ids l)) = Ok st /\
+    sd_ptr_size st = (if existsb (fun b => b) (sl_lma l) then 8 else 4) /\
+    sd_max_pfn st = sl_max_mapnr l /\ sd_block_size st = sl_block_size l /\
+    forall z pfn,
+      sd_read_page (read_files (encode_sadump l img)) st z pfn =
+      spec_read_page img SADUMP_PAGE_SIZE (sl_max_mapnr l) z pfn.
+Proof. exact sadump_set_roundtrip. Qed.
+Print Assumptions C01_sadump_set_roundtrip_partial.
 
 Theorem C01_sadump_disk_set_extents : forall rd (chunks : list (extent * bytes)) pos,
   Forall (fun ec => ex_len (fst ec) = len (snd ec) /\ (len (snd ec)) mod 4096 = 0 /\
@@ -252,7 +358,8 @@ Print Assumptions C01_sadump_disk_set_extents.
     variants and byte orders, every page size, RLE (any well-formed RLE
     stream) / gzip / raw records in *any* stream order, and any history of
     earlier requests ([inv] is the only thing a state has to satisfy, and
-    every operation preserves it). *)
+    every operation preserves it).  The [C01_lkcd_index_*] theorems further
+    down replace the association by the blocks of lkcd.c. *)
 Theorem C01_lkcd_open_partial : forall gunzip l stream img,
   lk_wf l stream -> Forall2 (rec_stores gunzip (ll_compression l) (ll_page_size l)) stream img ->
   exists st, lk_open (read_files [encode_lkcd l stream]) 1 = Ok st /\
@@ -275,6 +382,90 @@ Theorem C01_lkcd_max_pfn_partial : forall gunzip l stream img,
     LkcdProofs.inv l stream (snd (lk_scan_max_pfn (read_files [encode_lkcd l stream]) fuel st)).
 Proof. exact lkcd_max_pfn. Qed.
 Print Assumptions C01_lkcd_max_pfn_partial.
+
+(** ** the PFN index at the level of its blocks (Fmt/LkcdIndexModel.v)
+
+    [struct pfn_block] lists per level-2 slot, [lookup_pfn_block] with its
+    tolerance (as repaired by fix 35), [idx_fits_block] for the block carried
+    from one record to the next, gap entries, [alloc_pfn_block]'s sorted
+    insertion, duplicate detection, the 32-bit limit (fix 90).
+
+    One record of the page stream, for the block list [c] of its slot
+    ([chain_ok]: sorted, no block reaches its successor): whichever block the
+    code picks - looked up with tolerance, or the carried one - "Duplicate
+    PFN" is reported iff the list already has the level-3 index, and
+    otherwise the list afterwards has exactly one entry more: this index, at
+    this offset. *)
+Theorem C01_lkcd_index_record : forall c carried idx off,
+  chain_ok c -> idx < PFN_IDX3_SIZE -> Forall (fun b => b_filepos b < off) c ->
+  match chain_record c carried idx off with
+  | RSplit => exists b, In b c /\ PFN_IDX_LIMIT <= off - b_filepos b
+  | RDup => cfind c idx <> None
+  | RDone c' pos =>
+      cfind c idx = None /\ chain_ok c' /\
+      (forall j, cfind c' j = if j =? idx then Some off else cfind c j) /\
+      (pos < length c')%nat /\
+      Forall (fun b => b_filepos b <= off) c'
+  end.
+Proof. exact chain_record_sound. Qed.
+Print Assumptions C01_lkcd_index_record.
+
+(** ... where [cfind] is what [get_page_desc] reads off the list
+    ([lookup_pfn_block(pfn, 0)], [idx_is_gap], offset computation) *)
+Theorem C01_lkcd_index_lookup : forall c idx,
+  chain_ok c -> chain_find c idx = cfind c idx.
+Proof. exact chain_find_spec. Qed.
+Print Assumptions C01_lkcd_index_lookup.
+
+(** The scan on blocks simulates the scan on the association ([rel]: same
+    scalars, and the blocks answer every PFN as the association does): same
+    status, same descriptor offset, related states - for any reader of file
+    bytes, not only encoder output.  (The bound keeps descriptor offsets
+    within 32 bits of their block: [split_pfn_block] is C04's.) *)
+Theorem C01_lkcd_index_simulates : forall rd gunzip fuel b a pfn,
+  rel b a -> fuel <> O ->
+  lk_last (snd (lk_read_page rd gunzip fuel a pfn)) < PFN_IDX_LIMIT ->
+  fst (kb_read_page rd gunzip fuel b pfn) = fst (lk_read_page rd gunzip fuel a pfn) /\
+  rel (snd (kb_read_page rd gunzip fuel b pfn)) (snd (lk_read_page rd gunzip fuel a pfn)).
+Proof. exact read_page_sim. Qed.
+Print Assumptions C01_lkcd_index_simulates.
+
+(** After any history of requests ([binv]: reachable from [open] by reads and
+    max_pfn queries, see [C01_lkcd_index_history_partial]) some prefix of the
+    page stream has been scanned, and a page frame is found in the blocks iff
+    it occurs in that prefix, at the offset of its descriptor. *)
+Theorem C01_lkcd_index_sound : forall l stream,
+  lk_wf l stream -> forall b, binv l stream b ->
+  exists n, (n <= length stream)%nat /\
+    kb_last b = off l stream n /\
+    forall pfn,
+      tbl_find (kb_tbl b) pfn =
+      match find_rec (firstn n stream) pfn 0 with
+      | Some (i, _) => Some (off l stream i)
+      | None => None
+      end.
+Proof. exact index_sound. Qed.
+Print Assumptions C01_lkcd_index_sound.
+
+(** [_partial]: dumps below 4 GiB (no block splitting).  Opening establishes
+    [binv]; every history of page reads and max_pfn queries, in any order,
+    answers exactly as the image demands - pages found in the blocks, pages
+    the scan reaches, and pages that are not there. *)
+Theorem C01_lkcd_index_open : forall gunzip l stream img,
+  lk_wf l stream -> Forall2 (rec_stores gunzip (ll_compression l) (ll_page_size l)) stream img ->
+  exists b, kb_open (read_files [encode_lkcd l stream]) 1 = Ok b /\ binv l stream b /\
+            kb_be b = ll_be l /\ kb_page_size b = ll_page_size l.
+Proof. intros gunzip l stream img Hwf Hst. exact (index_open gunzip l stream img Hwf Hst). Qed.
+Print Assumptions C01_lkcd_index_open.
+
+Theorem C01_lkcd_index_history_partial : forall gunzip l stream img,
+  lk_wf l stream -> Forall2 (rec_stores gunzip (ll_compression l) (ll_page_size l)) stream img ->
+  len (encode_lkcd l stream) < 2^32 ->
+  forall fuel reqs b, binv l stream b -> (length stream + 1 < fuel)%nat ->
+    fst (kb_run (read_files [encode_lkcd l stream]) gunzip fuel b reqs) = map (spec_answer img) reqs /\
+    binv l stream (snd (kb_run (read_files [encode_lkcd l stream]) gunzip fuel b reqs)).
+Proof. intros gunzip l stream img Hwf Hst Hs fuel. exact (index_any_history gunzip l stream img Hwf Hst Hs fuel). Qed.
+Print Assumptions C01_lkcd_index_history_partial.
 
 (** * arbitrary address ranges *)
 
@@ -346,7 +537,7 @@ Proof.
     + split; [discriminate | reflexivity].
     + vm_compute. discriminate.
     + discriminate.
-    + reflexivity.
+    + discriminate.
     + intros _ _ _. discriminate.
     + repeat split.
     + repeat split.
@@ -367,6 +558,43 @@ Example C01_nonvacuous_diskdump :
        dd_read_page (read_files [encode_dd ex_layout ex_pages]) ex_dec st false 9 = Ok (ex_page 255) /\
        dd_read_page (read_files [encode_dd ex_layout ex_pages]) ex_dec st false 3 = Err ERR_NODATA /\
        dd_read_page (read_files [encode_dd ex_layout ex_pages]) ex_dec st true 3 = Ok (zeros 4096)
+   | Err _ => False
+   end).
+Proof. vm_compute. repeat split; reflexivity. Qed.
+
+(** a split set of the same dump: two files, given with the higher window first *)
+Definition ex_windows : list (N * N) := [(5, 11); (0, 5)].
+
+Example C01_nonvacuous_diskdump_split_hyps :
+  windows_ok ex_windows (dl_max_mapnr ex_layout) /\
+  (forall w, In w ex_windows -> dd_wf (with_window ex_layout w) ex_img).
+Proof.
+  split.
+  - repeat split.
+    + intros w [<- | [<- | []]]; reflexivity.
+    + repeat constructor; cbn; intuition discriminate.
+    + intros wi wj [<- | [<- | []]] [<- | [<- | []]] H; try congruence; cbn; lia.
+    + intros pfn H. change (dl_max_mapnr ex_layout) with 11 in H.
+      destruct (N.lt_ge_cases pfn 5).
+      * exists (0, 5). split; [right; now left | cbn; lia].
+      * exists (5, 11). split; [now left | cbn; lia].
+  - intros w Hw. apply with_window_wf.
+    + apply C01_nonvacuous_diskdump_hyps.
+    + discriminate.
+    + destruct Hw as [<- | [<- | []]]; reflexivity.
+    + destruct Hw as [<- | [<- | []]]; reflexivity.
+    + intros _ H. exfalso. revert H. cbn. discriminate.
+Qed.
+
+Example C01_nonvacuous_diskdump_split :
+  (let rd := read_files (encode_dd_set ex_layout ex_windows ex_pages) in
+   match dd_open rd 2 with
+   | Ok st =>
+       (dd_be st, dd_ptr_size st, dd_page_size st, dd_max_pfn st) = (true, 4, 4096, 11) /\
+       dd_read_page rd ex_dec st false 9 = Ok (ex_page 255) /\
+       dd_read_page rd ex_dec st false 1 = Ok (ex_page 7) /\
+       dd_read_page rd ex_dec st false 3 = Err ERR_NODATA /\
+       dd_read_page rd ex_dec st true 6 = Ok (zeros 4096)
    | Err _ => False
    end).
 Proof. vm_compute. repeat split; reflexivity. Qed.
@@ -413,6 +641,7 @@ Proof.
     + vm_compute. reflexivity.
     + cbn. repeat constructor; cbn; intuition discriminate.
     + repeat constructor.
+    + repeat constructor.
     + vm_compute. reflexivity.
     + reflexivity.
   - constructor; [| constructor; [| constructor]].
@@ -428,15 +657,35 @@ Proof.
       * repeat constructor; cbn; intuition (discriminate || reflexivity).
 Qed.
 
+(** the same stream through the block-level index: page 2 is reached by the
+    scan (which files page 5 on the way), page 5 is then found in the blocks,
+    page 7 is not in the dump; the hypothesis of the [_partial] theorem holds *)
+Example C01_nonvacuous_lkcd_index :
+  len (encode_lkcd ex_lk_layout ex_stream) < 2^32 /\
+  (let rd := read_files [encode_lkcd ex_lk_layout ex_stream] in
+   match kb_open rd 1 with
+   | Ok b =>
+       let '(answers, b') := kb_run rd (fun _ => None) 10 b [ReqPage 2; ReqPage 5; ReqMaxPfn; ReqPage 7] in
+       answers = [AnsPage (Ok (rle_expand ex_toks)); AnsPage (Ok (ex_page 3)); AnsMaxPfn (Ok 6);
+                  AnsPage (Err ERR_NODATA)] /\
+       tbl_find (kb_tbl b') 5 = Some 1000 /\ tbl_find (kb_tbl b') 2 = Some 5112 /\
+       tbl_find (kb_tbl b') 3 = None /\ tbl_find (kb_tbl b') (2^32 + 5) = None
+   | Err _ => False
+   end).
+Proof. split; [vm_compute; reflexivity |]. vm_compute. repeat split; reflexivity. Qed.
+
 Definition ex_elf_layout : elf_layout :=
   {| el_be := true; el_64 := false; el_machine := 20; el_osabi := 0; el_flags := 0;
      el_phoff_gap := 4; el_phent_extra := 8 |}.
 Definition ex_seg (ty phys virt : N) (data : bytes) (memsz gap : N) : elf_seg :=
   {| sg_type := ty; sg_flags := 7; sg_phys := phys; sg_virt := virt; sg_data := data;
      sg_filesz := len data; sg_memsz := memsz; sg_align := 0; sg_gap := gap |}.
+Definition ex_notes : list snote :=
+  [ SOther {| vn_name := [70; 79; 79; 0]; vn_type := 7; vn_desc := [1; 2; 3; 4; 5] |};
+    SVmcoreinfo true [ ([79; 83], [54]); (key_PAGESIZE, [56; 49; 57; 50]) ] ].
 Definition ex_segs : list elf_seg :=
   [ ex_seg 1 4090 8192 [1; 2; 3; 4; 5; 6; 7; 8; 9; 10] 20 3;
-    ex_seg 4 0 0 [9; 9; 9; 9] 0 0;
+    ex_seg 4 0 0 (enc_notes true (map to_vnote ex_notes)) 0 0;
     ex_seg 1 4110 4096 [11; 12] 2 1 ].
 
 Example C01_nonvacuous_elf :
@@ -459,6 +708,25 @@ Proof.
   - repeat constructor; unfold is_load; cbn; intros; try discriminate; lia.
 Qed.
 
+(** the NOTE segment of the example holds two notes; the dump announces
+    8192-byte pages on a machine (PowerPC) that has no fixed page size *)
+Example C01_nonvacuous_elf_geometry :
+  note_segs_hold ex_elf_layout ex_segs [ex_notes] /\
+  spec_ptr_size (el_machine ex_elf_layout) (el_64 ex_elf_layout) = Some 4 /\
+  spec_page_size (el_machine ex_elf_layout) (concat [ex_notes]) = Some 8192.
+Proof.
+  split; [| split; reflexivity].
+  unfold note_segs_hold. cbn [ex_segs filter is_note_seg ex_seg sg_type N.eqb Pos.eqb].
+  constructor; [| constructor]. split; [reflexivity |].
+  constructor; [| constructor; [| constructor]].
+  - split; [repeat split; reflexivity | reflexivity].
+  - split; [repeat split; reflexivity |].
+    constructor; [| constructor; [| constructor]].
+    + split; [repeat split; repeat constructor; discriminate | intro H; discriminate H].
+    + split; [repeat split; repeat constructor; discriminate |].
+      intros _. exists 13. split; reflexivity.
+Qed.
+
 Definition ex_sd_layout : sd_layout :=
   {| sl_kind := SdSingle; sl_block_size := 256; sl_version := 1; sl_max_mapnr := 9;
      sl_cpu_size := 1024; sl_lma := [false; true]; sl_sub_blocks := 9; sl_bitmap_blocks := 1;
@@ -466,12 +734,17 @@ Definition ex_sd_layout : sd_layout :=
      sl_vol_ids := [repeat 6 16]; sl_disk_pages := []; sl_set_hdr_blocks := 1; sl_magic0 := 0 |}.
 Definition ex_sd_img : image := [None; Some (ex_page 4); None; Some (ex_page 5)].
 
-Example C01_nonvacuous_sadump : sd_wf ex_sd_layout ex_sd_img.
+Lemma ex_sd_base kind vols pages :
+  sd_wf_base {| sl_kind := kind; sl_block_size := 256; sl_version := 1; sl_max_mapnr := 9;
+                sl_cpu_size := 1024; sl_lma := [false; true]; sl_sub_blocks := 9; sl_bitmap_blocks := 1;
+                sl_dumpable_blocks := 1; sl_mem_bits := [true]; sl_ids := repeat 5 48;
+                sl_vol_ids := vols; sl_disk_pages := pages; sl_set_hdr_blocks := 1; sl_magic0 := 0 |}
+             ex_sd_img.
 Proof.
   assert (Hp : forall b, len (ex_page b) = 4096)
     by (intro b; unfold ex_page; rewrite len_app, len_repeat; reflexivity).
-  constructor.
-  - reflexivity.
+  constructor; cbn [sl_block_size sl_version sl_max_mapnr sl_cpu_size sl_lma sl_sub_blocks sl_bitmap_blocks
+                    sl_dumpable_blocks sl_ids sl_magic0 nr_cpus length N.of_nat Pos.of_succ_nat Pos.succ].
   - exists 8. split; [split; discriminate | reflexivity].
   - discriminate.
   - split; [discriminate | reflexivity].
@@ -483,8 +756,55 @@ Proof.
   - constructor; [exact I |]. constructor; [apply Hp |]. constructor; [exact I |]. constructor; [apply Hp | constructor].
   - reflexivity.
   - reflexivity.
-  - split; [reflexivity | vm_compute; discriminate].
+Qed.
+
+Example C01_nonvacuous_sadump : sd_wf ex_sd_layout ex_sd_img.
+Proof.
+  constructor.
+  - apply ex_sd_base.
+  - reflexivity.
+  - reflexivity.
+  - vm_compute. discriminate.
   - vm_compute. reflexivity.
+Qed.
+
+Definition ex_sd_media : sd_layout :=
+  {| sl_kind := SdMedia; sl_block_size := 256; sl_version := 1; sl_max_mapnr := 9;
+     sl_cpu_size := 1024; sl_lma := [false; true]; sl_sub_blocks := 9; sl_bitmap_blocks := 1;
+     sl_dumpable_blocks := 1; sl_mem_bits := [true]; sl_ids := repeat 5 48;
+     sl_vol_ids := [repeat 6 16]; sl_disk_pages := []; sl_set_hdr_blocks := 1; sl_magic0 := 0 |}.
+
+Example C01_nonvacuous_sadump_media : sd_wf_media ex_sd_media ex_sd_img.
+Proof.
+  constructor.
+  - apply ex_sd_base.
+  - reflexivity.
+  - reflexivity.
+  - vm_compute. discriminate.
+  - vm_compute. reflexivity.
+  - vm_compute. reflexivity.
+Qed.
+
+Definition ex_sd_set : sd_layout :=
+  {| sl_kind := SdDiskSet; sl_block_size := 256; sl_version := 1; sl_max_mapnr := 9;
+     sl_cpu_size := 1024; sl_lma := [false; true]; sl_sub_blocks := 9; sl_bitmap_blocks := 1;
+     sl_dumpable_blocks := 1; sl_mem_bits := [true]; sl_ids := repeat 5 48;
+     sl_vol_ids := [repeat 6 16; repeat 7 16]; sl_disk_pages := [1; 1]; sl_set_hdr_blocks := 1;
+     sl_magic0 := 0 |}.
+
+Example C01_nonvacuous_sadump_set : sd_wf_set ex_sd_set ex_sd_img.
+Proof.
+  constructor.
+  - apply ex_sd_base.
+  - reflexivity.
+  - split; [discriminate |]. split; [repeat constructor | reflexivity].
+  - split; [reflexivity |]. split; [repeat constructor; discriminate | vm_compute; reflexivity].
+  - split; [vm_compute; discriminate | reflexivity].
+  - vm_compute. discriminate.
+  - cbn [tl split_data sl_disk_pages ex_sd_set]. constructor; [vm_compute; discriminate | constructor].
+  - apply Forall_forall. intros f Hf. apply (in_map len) in Hf.
+    assert (E : map len (encode_sadump ex_sd_set ex_sd_img) = [7680; 4352]) by (vm_compute; reflexivity).
+    rewrite E in Hf. destruct Hf as [<- | [<- | []]]; reflexivity.
 Qed.
 
 Example C01_nonvacuous_rle :
